@@ -85,7 +85,7 @@ def leaf_recipes(max_order=4):
                                 (lambda g=g, order=order, fact=fact: ([], {"gamma": g, "order": order, "factorial": fact})),
                                 {"gamma": (gv, "gamma_bounds")}, [pos(x) for x in gv], order=order))
     for cls in ("DiffARBF", "DiffARBFV2", "DiffAddLLRBF", "DiffAddRQ"):
-        for order in range(0, max_order + 1):
+        for order in range(1, max_order + 1):
             for iso in (False, True):
                 if iso and order not in (2,):
                     continue
